@@ -267,6 +267,39 @@ def const_nd(a):
     return new_array((a.shape[0], a.shape[1]), f2, "c2")
 
 
+def random_symplectic(rng, n, steps=None):
+    """table (2n x 2n, rows = destabilizers then stabilizers, columns = X part then Z part) of a random Clifford applied to
+    |0..0>: column operations of H / P / CNOT on the identity tableau (independent of the repository's gate code)"""
+    t = np.eye(2 * n, dtype=int)
+    for _ in range(steps if steps is not None else 4 * n + 2):
+        g = rng.integers(0, 3)
+        a = int(rng.integers(0, n))
+        if g == 0:  # H on a: swap x_a, z_a
+            t[:, [a, n + a]] = t[:, [n + a, a]]
+        elif g == 1:  # P on a: z_a ^= x_a
+            t[:, n + a] ^= t[:, a]
+        elif n > 1:  # CNOT a -> b: x_b ^= x_a, z_a ^= z_b
+            b = int(rng.integers(0, n - 1))
+            b = b if b < a else b + 1
+            t[:, b] ^= t[:, a]
+            t[:, n + a] ^= t[:, n + b]
+    return t
+
+
+def is_symplectic_tableau(conc):
+    """rows pairwise commute except destabilizer i with stabilizer i (which anticommute): M Omega M^T = Omega over GF(2)"""
+    n = conc["n"]
+    t = np.asarray(conc["table"]).astype(int) % 2
+    if t.shape != (2 * n, 2 * n):
+        return False
+    x, z = t[:, :n], t[:, n:]
+    prod = (x @ z.T + z @ x.T) % 2
+    om = np.zeros((2 * n, 2 * n), dtype=int)
+    om[:n, n:] = np.eye(n, dtype=int)
+    om[n:, :n] = np.eye(n, dtype=int)
+    return bool(np.array_equal(prod, om))
+
+
 class Clifford(Item):
     MOD = "graphiq.backends.stabilizer.clifford_tableau"
 
@@ -297,6 +330,9 @@ class Clifford(Item):
 
     def random(self, rng, env):
         n = _rand_eval(self.nsym(), rng, env)
+        if rng.integers(0, 2):  # half of the samples are VALID tableaux (random Clifford circuit on |0..0>, own numpy code)
+            return {"n": n, "table": random_symplectic(rng, n), "phase": rng.integers(0, 2, size=(2 * n,)),
+                    "iphase": np.zeros(2 * n, dtype=int)}
         return {"n": n, "table": rng.integers(0, 2, size=(2 * n, 2 * n)), "phase": rng.integers(0, 2, size=(2 * n,)),
                 "iphase": rng.integers(0, 2, size=(2 * n,))}
 
